@@ -16,7 +16,9 @@ def gen_affine(rnd, stratum=None):
     split without halo (subsampling); S4 multi-level split with halo;
     S5 coefficient 3/5/6 looped over the input rank."""
     if stratum is None:
-        stratum = rnd.choice(["S1", "S1", "S2", "S2", "S3", "S6", "S8"])
+        stratum = rnd.choice(["S1", "S1", "S2", "S2", "S3", "S6", "S8", "S9"])
+    if stratum == "S9":
+        return gen_affine2(rnd)
     dims = 1 if stratum in ("S4", "S5", "S6", "S7") else rnd.randint(1, 2)
     pairs = DIMS[:dims]
     if rnd.random() < 0.3:
@@ -178,3 +180,62 @@ def gen_affine(rnd, stratum=None):
     spec = Spec(decl, [e], partitioning=({"O": parts} if parts else None),
                 loop_order={"O": lo}, tags=info["tags"])
     return spec, ext, info
+
+
+def gen_affine2(rnd):
+    """Stratum S9: TWO operands reached through index math.
+      A  O[q] = I[a*q + b*s] * J[a2*q + b2*v] * F[s] * K[v]   (own filter variables)
+      B  O[q] = I[q + s] * J[q + s] * F[s]                    (same expression, ranks W and H)
+      C  O[q] = I[q + s] * J[q + 2*s] * F[s], I and J both declared on W
+         (the compiler refuses C: two expressions for one rank)
+    Optionally the output rank is shape-partitioned with BOTH input ranks
+    following it."""
+    var = rnd.choice(["A", "A", "B", "C"])
+    Q = rnd.randint(2, 8)
+    S = rnd.randint(1, 4)
+    ext = {"Q": Q, "S": S}
+    tags = ["S9", "two-affine-operands", "S9-" + var]
+    if var == "A":
+        a, b = rnd.choice([1, 1, 2]), rnd.choice([1, 1, 2])
+        a2, b2 = rnd.choice([1, 1, 2]), rnd.choice([1, 2])
+        V = rnd.randint(1, 5)
+        ext["V"] = V
+        ext["W"] = a * (Q - 1) + b * (S - 1) + 1
+        ext["H"] = a2 * (Q - 1) + b2 * (V - 1) + 1
+        decl = {"I": ["W"], "J": ["H"], "F": ["S"], "K": ["V"], "O": ["Q"]}
+        facs = [Acc("I", [[(a, "q"), (b, "s")]]), Acc("J", [[(a2, "q"), (b2, "v")]]),
+                Acc("F", [[(1, "s")]]), Acc("K", [[(1, "v")]])]
+        loops = [["S"], ["V"]]
+        halo = {"W": b * (S - 1), "H": b2 * (V - 1)}
+    elif var == "B":
+        ext["W"] = Q + S - 1
+        ext["H"] = Q + S - 1
+        decl = {"I": ["W"], "J": ["H"], "F": ["S"], "O": ["Q"]}
+        facs = [Acc("I", [[(1, "q"), (1, "s")]]), Acc("J", [[(1, "q"), (1, "s")]]),
+                Acc("F", [[(1, "s")]])]
+        loops = [["S"]]
+        halo = {"W": S - 1, "H": S - 1}
+    else:
+        ext["W"] = Q + 2 * (S - 1)
+        decl = {"I": ["W"], "J": ["W"], "F": ["S"], "O": ["Q"]}
+        facs = [Acc("I", [[(1, "q"), (1, "s")]]), Acc("J", [[(1, "q"), (2, "s")]]),
+                Acc("F", [[(1, "s")]])]
+        loops = [["S"]]
+        halo = {"W": 2 * (S - 1)}
+    rnd.shuffle(facs)
+    e = Einsum(Acc("O", [[(1, "q")]]), [Term("times", facs)])
+    parts = None
+    if rnd.random() < 0.5:
+        parts = {"Q": ["uniform_shape(%d)" % rnd.randint(2, 5)]}
+        for r in halo:
+            parts[r] = ["follow(Q)"]
+        groups = [["Q1", "Q0"]] + loops
+        tags += ["partitioned", "two-followers"]
+        if any(halo.values()):
+            tags.append("halo")
+    else:
+        groups = [["Q"]] + loops
+    lo = interleave(rnd, groups, True)
+    spec = Spec(decl, [e], partitioning=({"O": parts} if parts else None),
+                loop_order={"O": lo}, tags=tags)
+    return spec, ext, {"stratum": "S9", "tags": tags, "dims": []}
